@@ -21,9 +21,12 @@ func init() { fw.Register("C10D", runC10D) }
 
 func runC10D(c *fw.Ctx) {
 	res := c.Res
-	res.Rule = "malformed byte streams into every decoder of types, consensus, gateway, rhp/v2, rhp/v3, rhp/v4 (one entry per type with an encoder/decoder pair): random bytes of length 0..300; a valid encoding with 8 bytes at EVERY offset (up to 320) overwritten by 2^60, 2^63, 2^64-1, len+1, 2^40, 2^32 (length-prefix inflation); random bit flips; valid encoding + garbage; truncation + garbage. Each decode runs under recover with a wall-clock check; outcome must be value-or-error. A case is non-trivial when the input is non-empty; distinct by (type, bytes). Plus a structure-aware family for the multiproof block form (real simulator blocks re-encoded with one wrong proof length / leaf index / numLeaves / hash count / outline kinds vector at a time) into every decoder that carries it. For types with a generated schema a sample is decoded by the Lean model too (ok+re-encoding / err / panic must agree)."
+	res.Rule = "malformed byte streams into every decoder of types, consensus, gateway, rhp/v2, rhp/v3, rhp/v4 (one entry per type with an encoder/decoder pair): random bytes of length 0..300; a valid encoding with 8 bytes at EVERY offset (up to 320) overwritten by 2^60, 2^63, 2^64-1, len+1, 2^40, 2^32 (length-prefix inflation); random bit flips; valid encoding + garbage; truncation + garbage. Each decode runs under recover with a wall-clock check; outcome must be value-or-error. A case is non-trivial when the input is non-empty; distinct by (type, bytes). Plus a structure-aware family for the multiproof block form (real simulator blocks re-encoded with one wrong proof length / leaf index / numLeaves / hash count / outline kinds vector at a time) into every decoder that carries it. Plus the ALLOCATION family: for every decoder and every slice-typed field reachable in it (reflection walk; one kept element per slice of structs, two levels), inputs of 64 KiB / 1 MiB (8 MiB thorough) whose length prefix for that slice claims remaining, remaining-1, 2^20, 2^32-1, 2^63 elements followed by 0xFF filler and by zero filler, and 24/64-byte tails on a decoder whose LimitedReader allows 1 MiB / 16 MiB; bytes allocated per call (runtime.MemStats.TotalAlloc delta) must be <= 256 KiB + 8 x supplied bytes (c10_decode_elems_bounded: element slots <= depth x input under append growth, no slack term; 1024 x for the zero filler where small encodings legitimately expand; []byte fields on a short stream are held to the bound with the slack term of c10_decode_alloc_bounded, since ReadBytes allocates the accepted count at once). For types with a generated schema a sample is decoded by the Lean model too (ok+re-encoding / err / panic must agree)."
 	ts := c11Types()
 	if c.Replay != "" {
+		if c10AllocReplay(c, ts) {
+			return
+		}
 		c11Replay(c, ts)
 		return
 	}
@@ -123,6 +126,7 @@ func runC10D(c *fw.Ctx) {
 		}
 	}
 	c10MultiproofFamily(c, g)
+	c10AllocFamily(c, g)
 	res.CountN("types", len(ts))
 	c11Compare(c, model)
 }
